@@ -65,6 +65,95 @@ CHECKS['C11'] = dict(
     technique=TECH + ': exhaustive crash-point enumeration per seeded trace (fork + _exit, LD_PRELOAD syscall counter), '
               'acknowledgement-vs-durable-state oracle in a fresh process')
 
+INRUN = ('This property is a pure function of its arguments; simulation cannot decide its universally quantified form. What is '
+         'claimed is the weaker in-run invariant: it held on every call the real optimisers made in every explored run '
+         '(seeded configurations, PRNG seeds, failure plans, extreme legal draws), with reach counters in the evidence that '
+         'show which part of the quantifier was touched. Enumeration or proof would decide it far better; this is stated '
+         'rather than switching technique. ')
+CHECKS['C01'] = dict(
+    level='exploration', ref='DESIGN.md 6 (C01), 7',
+    text=INRUN + 'Wrappers on both comparators compare every verdict with the textbook constrained-dominance verdict, re-call the '
+         'unwrapped comparator with swapped / identical arguments (antisymmetry, irreflexivity, eps tie-break) and sample triples of '
+         'every sorted pool for transitivity.',
+    note='only argument pairs that arise in runs (m = 1..4, True/False markers); real-valued violation degrees are not reachable.',
+    technique=TECH + ': in-run invariant monitor over seeded whole-algorithm runs (weaker than the stated quantifier)')
+CHECKS['C02'] = dict(
+    level='exploration', ref='DESIGN.md 6 (C02), 7',
+    text=INRUN + 'After every fast_nondominated_sorting call of NSGA-II / OMOPSO runs the front numbers are recomputed with the naive '
+         'O(n^2) definition; each pool is additionally re-sorted in reversed and seeded-shuffled order on copies.',
+    note='only pools that arise in runs and their reorderings; reference = textbook constrained dominance.',
+    technique=TECH + ': in-run invariant monitor over seeded whole-algorithm runs (weaker than the stated quantifier)')
+CHECKS['C03'] = dict(
+    level='exploration', ref='DESIGN.md 6 (C03), 7',
+    text=INRUN + 'Order-free oracles after every nondominated_truncate, crowding_distance and TournamentSelector.select call; the PRNG '
+         'seam tells the oracle which two candidates the tournament drew.',
+    note='only pools that arise in runs; fronts with aliased feature dicts (PSOGA, O4) skipped and counted.',
+    technique=TECH + ': in-run invariant monitor over seeded whole-algorithm runs, PRNG seam exposes tournament draws')
+CHECKS['C20'] = dict(
+    level='exploration', ref='DESIGN.md 6 (C20), 7, 8 (F1)',
+    text=INRUN + 'Wrapper on Individual.__eq__ (definition, symmetry, hash agreement), on duplicate rejection inside generate(), on '
+         'list removal in pop_acceptance / Archive.remove and on hash agreement of identical designs entering the set-based '
+         'de-duplication. Found defect F1 on the pinned tree (fixed in /repo).',
+    note='only vector pairs that arise in runs: identical, completely different and - through SBX/PM - sharing any subset of coordinates.',
+    technique=TECH + ': in-run invariant monitor over seeded whole-algorithm runs (weaker than the stated quantifier)')
+CHECKS['C04'] = dict(
+    level='exploration', ref='DESIGN.md 6 (C04)',
+    text='Seeded offer histories (1-16 offers on a dyadic grid, feasibility markers, 1-3 objectives) delivered to fresh archives in '
+         'original, permuted and permuted-with-duplicates order (fault kinds reorder / duplicate) for both comparators; after every '
+         'add the content is compared with the Pareto-minimal set of everything offered, the return value with membership, the '
+         'three final contents with each other, and truncate with the top-k. The archives and leader sets of eps-MOEA / OMOPSO / '
+         'SMPSO / PSOGA runs are followed with the clauses that stay exact on continuous costs. Sampling of histories.',
+    note='grid-valued offers for exact-content clauses (eps scaling can collapse values one ulp apart); reference = textbook dominance.',
+    technique=TECH + ': seeded offer histories with reordered / duplicated delivery, reference-set oracle after every step')
+CHECKS['C08'] = dict(
+    level='exploration', ref='DESIGN.md 6 (C08)',
+    text='Every vector that reaches the objective in seeded NSGA-II / eps-MOEA / OMOPSO / SMPSO / PSOGA runs (incl. designs re-rolled '
+         'after injected failures) and every return value of SBX / PM / uniform / non-uniform mutation and the generators is judged '
+         'against the box; the PRNG seam injects extreme legal draws (0, 1-2^-53, 1/2 +- ulp, end points) at seeded sites, boxes are '
+         'negative, 1e-6 wide, +-1e6 wide or mixed, with optional coarse precision. A direct family calls operators and DoE '
+         'generators on parents on bounds / coincident / one ulp apart. Sampling.',
+    note='tolerance 1e-12 + 4 ulp (+ half the declared precision); |bound| <= 1e6.',
+    technique=TECH + ': seeded runs with PRNG-extreme injection and failure re-rolls, box oracle on every evaluated vector')
+CHECKS['C09'] = dict(
+    level='exploration', ref='DESIGN.md 6 (C09)',
+    text='Complete NSGA-II / eps-MOEA / OMOPSO / SMPSO runs over seeded configurations, PRNG seeds, transient-failure plans and '
+         'extreme draws; the population ledger is rebuilt from Problem.populations() and the objective call log (budget, tags, '
+         'generation sizes, repeats, elitism by textbook dominance, single-objective best) and every eps-MOEA acceptance step is '
+         'judged in-run. A run that raises without five consecutive planned failures is a violation. Sampling.',
+    note='parameters without coarse precision; PRNG extremes only in failure-free runs; PSOGA outside the property.',
+    technique=TECH + ': seeded runs x failure plans, ledger oracle rebuilt from the call log')
+CHECKS['C14'] = dict(
+    level='exploration', ref='DESIGN.md 6 (C14), 8 (F2)',
+    text='Histories of 1-5 batches through one WorstCaseEvaluator / GradientEvaluator object (serial and simulated workers, optional '
+         're-submission) and the batch sequences of NSGA-II / eps-MOEA runs constructed with these evaluator types; after every '
+         'batch the neighbour set, neighbour costs, sensitivity sum, cost-vector length, gradient quotient and call budget are '
+         'checked for all designs ever handed to the evaluator. Found defect F2 on the pinned tree (fixed in /repo). Sampling.',
+    note='failures off (O2); NSGA-II parent copies skipped; sensitivity to 1e-12, gradient to 1e-9 relative.',
+    technique=TECH + ': seeded batch histories, history oracle over all earlier designs after every batch')
+CHECKS['C17'] = dict(
+    level='exploration', ref='DESIGN.md 6 (C17), 8 (F3)',
+    text='A harness ledger of what was recorded (after complete runs incl. failure re-rolls, optionally read back from SQLite through '
+         'a read-mode view, and after generated recordings with unsorted tags / duplicates / maximised goals) is compared with every '
+         'Results query; gd and epsilon_add identities are checked on the recorded fronts (in-run invariant for the indicator '
+         'clauses). Found defect F3 on the pinned tree (fixed in /repo). Sampling.',
+    note='indicator clauses only on point sets that arise from runs and their shifts; order among equal sort keys is free.',
+    technique=TECH + ': seeded recorded histories (runs, store read-back, direct recordings), ledger oracle over all queries')
+CHECKS['C18'] = dict(
+    level='exploration', ref='DESIGN.md 6 (C18)',
+    text='Per-particle before/after oracles on update_particle_best (sequential semantics), update_velocity, update_position and '
+         'update_global_best in every generation of seeded OMOPSO / SMPSO / PSOGA runs (failure plans, extreme draws, all boxes), plus '
+         'direct histories feeding the same public methods positions and velocities up to 1e3 ranges outside the box. Sampling.',
+    note='PSOGA shares feature dicts between particles (O4): judged one particle at a time; exact float equality for the position rule.',
+    technique=TECH + ': seeded runs and direct histories with before/after oracles per particle and generation')
+CHECKS['C19'] = dict(
+    level='exploration', ref='DESIGN.md 6 (C19)',
+    text='Seeded request histories (1-40 requests) against SurrogateModelEval, SurrogateModelPredict (logging train) and '
+         'SurrogateModelScikit (stub regressor) with train_step in {-1,1,2,3,5,10}, initially trained or not, hook present or absent, '
+         'hook accept/decline per request from the fault stream; also requests produced by real Job.evaluate in batches and runs. A '
+         'reference model of counters / training lists / trained flag / train schedule is compared after every request. Sampling.',
+    note='sequential requests (O3); regressors stubbed.',
+    technique=TECH + ': seeded request histories with injected hook decisions, reference-model oracle after every request')
+
 NOT_BUILT = 'claimed in DESIGN.md; its check is not part of this commit yet'
 NA = {
     'C12': 'pure single-call functions (bounds, N, one PRNG vector) -> matrix; nothing is scheduled, retried, shared or '
